@@ -16,7 +16,7 @@ import (
 func init() {
 	Register(&Rule{
 		ID: "C39", Section: "5 C39",
-		Technique: "wire-integer hygiene (bound typestate of decoded locals feeding make), unsigned-subtraction guards, length-prefix agreement between serialiser and parser (constants recomputed from the sizes of the encoding/binary transfers), phi-edge analysis of the compressed-payload-size test, dominance/reachability on go/ssa",
+		Technique: "wire-integer hygiene (bound typestate of decoded locals feeding make), unsigned-subtraction guards, length-prefix agreement between serialiser and parser (constants recomputed from the sizes of the encoding/binary transfers), phi-edge analysis of the compressed-payload-size test, natural-loop exit analysis (returns reachable without the exhaustion exit of the block-reading loop, classified by the construction of their error value), dominance/reachability on go/ssa",
 		Meta: core.Meta{
 			Level: "other",
 			Explanation: "Decides structural necessary conditions in bfe_spdy/frame_read.go and frame_write.go: " +
@@ -30,8 +30,9 @@ func init() {
 				"(validate-before-write) no frame-validation error is returned after part of the frame was already written; " +
 				"(shift-agree, mask-agree, control-bit) bit-packing constants of writer and reader agree; " +
 				"(payload-size-check, uncork-sets-n) after parsing a compressed header block every success return depends on headerReader.N == 0 and uncorkHeaderDecompressor arms the limit with its argument on every path. " +
-				"Not covered: equality of header bytes through the shared zlib context, header name/value validation (C25), full panic freedom (index arithmetic), blocking behaviour of the underlying reader.",
-			RuleText:    "obligations = each wire-sized make, each length subtraction, each success return of a fixed-size frame reader, each control frame type (length agreement), each length prefix, each header-block writer (flush, reset), each validation error return of a writer, each writer/reader bit-layout pair, each header-block reader (payload size test)",
+				"(block-consumed) the header blocks of all frames of a connection pass through one zlib decompressor, so parseHeaderValueBlock may leave the loop over the announced pairs early (return or break inside the loop, return before it) only with an error that aborts the connection's header context - the block reader's own error, an untyped error, a typed *Error without stream id; success and the stream-level *Error{code, streamId} are returned only through the loop's own exhaustion exit, i.e. after the whole block was consumed (known finding: the two InvalidHeaderPresent returns added by the header-validation fix sit inside the loop). " +
+				"Not covered: equality of header bytes through the shared zlib context (only that each block is consumed to its end before a recoverable result is reported), mid-frame error returns of the fixed-size control frame readers on the raw connection (GOAWAY/WINDOW_UPDATE flag checks), that the loop bound is the announced pair count, header name/value validation (C25), full panic freedom (index arithmetic), blocking behaviour of the underlying reader.",
+			RuleText:    "obligations = each wire-sized make, each length subtraction, each success return of a fixed-size frame reader, each control frame type (length agreement), each length prefix, each header-block writer (flush, reset), each validation error return of a writer, each writer/reader bit-layout pair, each header-block reader (payload size test), each return of parseHeaderValueBlock that does not pass the exhaustion exit of the pair loop (error class)",
 			Assumptions: []string{"encoding/binary.Read/Write transfer exactly the size of their fixed-size operand", "io.LimitedReader enforces N"},
 		},
 		Run: runC39,
@@ -53,6 +54,11 @@ func init() {
 			{Name: "priority-shift-mismatch", File: "bfe_spdy/frame_read.go", Old: "	frame.Priority >>= 5", New: "	frame.Priority >>= 4", Expect: "shift-agree|syn-priority"},
 			{Name: "payload-size-check-weakened", File: "bfe_spdy/frame_read.go", Old: "(err == io.EOF && f.headerReader.N == 0 || f.headerReader.N != 0) {\n		err = &Error{WrongCompressedPayloadSize, 0}\n	}\n	if err != nil {\n		return err\n	}\n	var invalidHeaders", New: "(err == io.EOF && f.headerReader.N == 0) {\n		err = &Error{WrongCompressedPayloadSize, 0}\n	}\n	if err != nil {\n		return err\n	}\n	var invalidHeaders", Expect: "payload-size-check|Framer.readHeadersFrame"},
 			{Name: "uncork-reuse-keeps-old-limit", File: "bfe_spdy/frame_read.go", Old: "	if f.headerDecompressor != nil {\n		f.headerReader.N = payloadSize\n		return nil\n	}", New: "	if f.headerDecompressor != nil {\n		return nil\n	}", Expect: "uncork-sets-n"},
+			{Name: "unlowercased-name-rejected-at-once", File: "bfe_spdy/frame_read.go", Old: "			e = &Error{UnlowercasedHeaderName, streamId}\n			name = strings.ToLower(name)\n", New: "			return nil, 0, &Error{UnlowercasedHeaderName, streamId}\n", Expect: "block-consumed|parseHeaderValueBlock:early:UnlowercasedHeaderName"},
+			{Name: "duplicate-breaks-out-of-pair-loop", File: "bfe_spdy/frame_read.go", Old: "			e = &Error{DuplicateHeaders, streamId}\n", New: "			e = &Error{DuplicateHeaders, streamId}\n			break\n", Expect: "block-consumed|parseHeaderValueBlock:early:success"},
+			{Name: "oversize-value-blamed-on-stream", File: "bfe_spdy/frame_read.go", Old: "			return nil, 0, fmt.Errorf(\"HeaderValueBlock with invalid value length: %d\", length)\n", New: "			return nil, 0, &Error{InvalidControlFrame, streamId}\n", Expect: "block-consumed|parseHeaderValueBlock:early:InvalidControlFrame"},
+			{Name: "silent-pair-loop-counts-down", File: "bfe_spdy/frame_read.go", Old: "	for i := 0; i < int(numHeaders); i++ {\n		var length uint32\n", New: "	for left := numHeaders; left > 0; left-- {\n		var length uint32\n", Silent: true},
+			{Name: "silent-oversize-name-is-connection-error", File: "bfe_spdy/frame_read.go", Old: "			return nil, 0, fmt.Errorf(\"HeaderValueBlock with invalid name length: %d\", length)\n", New: "			return nil, 0, &Error{InvalidControlFrame, 0}\n", Silent: true},
 			{Name: "silent-bound-operands-swapped", File: "bfe_spdy/frame_read.go", Old: "	if numSettings > MaxNumSettings {", New: "	if MaxNumSettings < numSettings {", Silent: true},
 			{Name: "silent-local-renamed-and-logging", File: "bfe_spdy/frame_read.go", Old: "	var length uint32\n	if err := binary.Read(f.r, binary.BigEndian, &length); err != nil {\n		return nil, err\n	}\n	var frame DataFrame\n	frame.StreamId = streamId\n	frame.Flags = DataFlags(length >> 24)\n	length &= 0xffffff\n	frame.Data = make([]byte, length)", New: "	var word uint32\n	if err := binary.Read(f.r, binary.BigEndian, &word); err != nil {\n		return nil, err\n	}\n	var frame DataFrame\n	frame.Flags = DataFlags(word >> 24)\n	frame.StreamId = streamId\n	word = word & 0xffffff\n	_ = fmt.Sprintf(\"data frame of %d bytes\", word)\n	frame.Data = make([]byte, word)", Silent: true},
 			{Name: "silent-receiver-renamed", File: "bfe_spdy/frame_write.go", Old: "func (f *Framer) writeHeadersFrame(frame *HeadersFrame) (err error) {\n	if frame.StreamId == 0 {\n		return &Error{ZeroStreamId, 0}\n	}\n	// Marshal the headers.\n	var writer io.Writer = f.headerBuf\n	if !f.headerCompressionDisabled {\n		writer = f.headerCompressor\n	}\n	if _, err = writeHeaderValueBlock(writer, frame.Headers); err != nil {\n		return\n	}\n	if !f.headerCompressionDisabled {\n		f.headerCompressor.Flush()\n	}\n\n	// Set ControlFrameHeader.\n	frame.CFHeader.version = Version\n	frame.CFHeader.frameType = TypeHeaders\n	frame.CFHeader.length = uint32(len(f.headerBuf.Bytes()) + 4)\n\n	// Serialize frame to Writer.\n	if err = writeControlFrameHeader(f.w, frame.CFHeader); err != nil {\n		return\n	}\n	if err = binary.Write(f.w, binary.BigEndian, frame.StreamId); err != nil {\n		return\n	}\n	if _, err = f.w.Write(f.headerBuf.Bytes()); err != nil {\n		return\n	}\n	f.headerBuf.Reset()\n	return\n}", New: "func (fr *Framer) writeHeadersFrame(hf *HeadersFrame) (err error) {\n	if hf.StreamId == 0 {\n		return &Error{ZeroStreamId, 0}\n	}\n	var writer io.Writer = fr.headerBuf\n	if !fr.headerCompressionDisabled {\n		writer = fr.headerCompressor\n	}\n	if _, err = writeHeaderValueBlock(writer, hf.Headers); err != nil {\n		return\n	}\n	if !fr.headerCompressionDisabled {\n		fr.headerCompressor.Flush()\n	}\n	hf.CFHeader.frameType = TypeHeaders\n	hf.CFHeader.version = Version\n	hf.CFHeader.length = uint32(4 + len(fr.headerBuf.Bytes()))\n	if err = writeControlFrameHeader(fr.w, hf.CFHeader); err != nil {\n		return\n	}\n	if err = binary.Write(fr.w, binary.BigEndian, hf.StreamId); err != nil {\n		return\n	}\n	if _, err = fr.w.Write(fr.headerBuf.Bytes()); err != nil {\n		return\n	}\n	fr.headerBuf.Reset()\n	return\n}", Silent: true},
@@ -815,4 +821,8 @@ func runC39(c *core.Ctx) {
 		c.Check("uncork-sets-n", "uncorkHeaderDecompressor:field", fn.Pos(), stored, "uncorkHeaderDecompressor never stores into f.headerReader")
 	}
 	c.Min("uncork-sets-n", 5)
+
+	// ---- block-consumed (x_s_spdy2.go) -----------------------------------------
+	c39BlockConsumed(c)
+	c.Min("block-consumed", 10)
 }
